@@ -1,14 +1,16 @@
 import RasnModel.Lexer.Values
 import RasnModel.Spec.Values
 import RasnModel.Proofs.Values
+import RasnModel.Proofs.GenValues
 /-
   C07 — value assignments and DEFAULTs denote the source abstract value (leaf conversions).
   `hexToBools` and `wellKnown` are REGENERATED from /repo on every run. Composite values
   (CHOICE / SEQUENCE / SET / SEQUENCE OF, nested to any depth, through chains of type references,
   with DEFAULTs filled in) are modelled in `Link/Values` (the composite arms of `link_with_type`,
   `link_struct_like`, `link_array_like`) and proved against the relational reading `Denotes` at
-  the end of this file. The rendering of a linked value as a Rust expression is evaluated
-  symbolically by the harness (PARTIAL: no Lean model of `value_to_tokens`).
+  the end of this file. The rendering of a linked composite value as a Rust expression (the composite arms of
+  `value_to_tokens`, `Gen/Values`) is proved to keep the value in the section `Rendering`; the leaf arms are
+  evaluated symbolically by the harness (PARTIAL: no Lean model of the leaf literals' printing).
 -/
 namespace Props.C07
 open Lexer.Values Spec.Values Extracted.Values
@@ -380,5 +382,70 @@ example :
   simp [link, strip, linkGiven, findMember, assemble, findGiven, wrap, absL, absFields, Option.orElse]
 
 end Composite
+
+/-! ### Rendering: the composite arms of `Rasn::value_to_tokens` (`Gen/Values`) -/
+section Rendering
+open Link.Values Gen.Values
+
+/-- **C07 (rendering keeps the value).** For every governing type, every type name handed in, every linked value
+    (any depth, any chain of references): the expression the composite arms build — newtype wrappers around
+    `T::new(..)` / `T::alt(..)` / `vec![..]` — denotes the linked value: arguments in the order of the fields,
+    elements in order, the alternative under its Rust spelling, the wrappers transparent. -/
+theorem C07_rendering_keeps_value (title enumId : String → String) (ty : VTy) (tn : Option String) (l : LVal) (r : RExpr)
+    (h : render title enumId ty tn l = some r) : evalR r = pos enumId (absL l) :=
+  evalR_render title enumId l ty tn r h
+
+/-- **C07 end to end for composite values**: source notation → linker → generator. Whatever links and renders is
+    an expression denoting (positionally) an abstract value the notation denotes under its governing type; with
+    `C07_reading_is_a_function` that is *the* value for every notation that names no component twice. -/
+theorem C07_rendered_denotes (title enumId : String → String) (ty : VTy) (tn : Option String) (v : SVal) (l : LVal) (r : RExpr)
+    (hl : link ty v = some l) (hr : render title enumId ty tn l = some r) :
+    ∃ x, Denotes ty v x ∧ evalR r = pos enumId x :=
+  ⟨absL l, C07_composite_denotes v ty l hl, evalR_render title enumId l ty tn r hr⟩
+
+/-- the same for the glue of `generate_value` around a value assignment `v N ::= …` (the value linked with the body
+    of `N`, the newtype of `N` put around it) -/
+theorem C07_assignment_rendering_keeps_value (title enumId : String → String) (name : Option String) (body : VTy) (v : SVal)
+    (l : LVal) (r : RExpr) (hl : link body v = some l) (hr : renderAssignment title enumId name body l = some r) :
+    ∃ x, Denotes body v x ∧ evalR r = pos enumId x :=
+  ⟨absL l, C07_composite_denotes v body l hl, evalR_renderAssignment title enumId name body l r hr⟩
+
+/-- the wrappers of a reference chain appear in chain order, the first reference outermost (`nester` pops from the
+    end): `v A ::= …` with `A ::= B`, `B ::= SEQUENCE …` is `A(B(B::new(…)))` -/
+theorem C07_wrappers_in_chain_order (title : String → String) (a b : String) (s : RExpr) :
+    nest title [a, b] s = .wrap (title a) (.wrap (title b) s) := rfl
+
+theorem C07_wrappers_compose (title : String → String) (p q : List String) (s : RExpr) :
+    nest title (p ++ q) s = nest title p (nest title q s) := nest_append title p q s
+
+/-- a SEQUENCE / SET value is never rendered without a type name (the generator answers with a warning that names
+    the definition; C10 accounts for it) -/
+theorem C07_struct_value_needs_type_name (title enumId : String → String) (ty : VTy) (fs : List LField) :
+    render title enumId ty none (.struct fs) = none := by
+  simp [render]
+
+/-- one constructor argument per component of the governing SEQUENCE / SET -/
+theorem C07_struct_one_argument_per_component (title enumId : String → String) (ms : List VMember) (fs : List LField) (rs : List RExpr)
+    (h : renderFields title enumId ms fs = some rs) : rs.length = ms.length := by
+  have := renderFields_length title enumId ms fs rs h
+  omega
+
+/-- elements of a list value are rendered without a type name, so a SEQUENCE value directly inside a list is refused -/
+theorem C07_struct_inside_list_refused (title enumId : String → String) (e : VTy) (fs : List LField) (rest : List LVal) :
+    renderElems title enumId e (.struct fs :: rest) = none := by
+  simp [renderElems, render]
+
+/-- non-vacuity: `v A ::= { y FALSE, z { p 2 } }` with `A ::= Sq`, `Sq ::= SEQUENCE { x INTEGER DEFAULT 7, y BOOLEAN, z Inner }`,
+    `Inner ::= SEQUENCE { p INTEGER }` links (with the body of `A`) and renders as `A(Sq(Sq::new(7, false, Inner(Inner::new(2)))))` -/
+example :
+    let inner : VTy := .named "Inner" (.seq [.mk "p" .leaf none])
+    let body : VTy := .named "Sq" (.seq [.mk "x" .leaf (some (.atom (.int 7))), .mk "y" .leaf none, .mk "z" inner none])
+    (link body (.braces [.mk (some "y") (.atom (.bool false)), .mk (some "z") (.braces [.mk (some "p") (.atom (.int 2))])])).bind
+        (renderAssignment id id (some "A") body)
+      = some (.wrap "A" (.wrap "Sq" (.new "Sq" [.lit (.int 7), .lit (.bool false), .wrap "Inner" (.new "Inner" [.lit (.int 2)])]))) := by
+  simp [link, strip, linkGiven, findMember, assemble, findGiven, wrap, Option.orElse, render, renderFields, core, tyName,
+    renderAssignment, wrapName, nest]
+
+end Rendering
 
 end Props.C07
